@@ -118,8 +118,8 @@ def run(ctx):
         nb = rng.randint(1, 4); h = rng.choice([100, 100, 180, 200, 229, 50])
         for i in range(rng.randint(5, 60)):
             x = rng.random()
-            if not c.heights and x < 0.5 and len(c.jumpers) < nb: op = ('add', len(c.jumpers) + 1)
-            elif x < 0.06: op = ('add', rng.randint(1, nb + 1))
+            if not c.heights and x < 0.5 and len(c.jumpers) < nb: op = ('add', len(c.jumpers) + 1 if (w % 2 == 0 or rng.random() < 0.7) else 0)
+            elif x < 0.06: op = ('add', rng.randint(0 if w % 2 else 1, nb + 1))          # bib 0 = entered without a bib (default '0')
             elif x < 0.22:
                 dlt = rng.choice([3, 2, 5, 1, 1, 0, -2, -3]) if rng.random() < 0.9 else -h
                 op = ('bar', h + dlt)
